@@ -141,6 +141,7 @@ SAFE_BUILTINS = {
     "type": type,
     "abs": abs,
     "hash": hash,
+    "frozenset": frozenset,
 }
 
 
@@ -501,6 +502,11 @@ class HostInterp:
             if isinstance(e.op, ast.Mult) and isinstance(a, (list, str, int)) and isinstance(b, int):
                 return a * b
             raise AnalysisError("interpretation: unsupported arithmetic")
+        if isinstance(e, ast.BinOp) and isinstance(e.op, (ast.BitXor, ast.BitOr, ast.BitAnd)):
+            a, b = self.ev(e.left, env), self.ev(e.right, env)
+            if (isinstance(a, int) and isinstance(b, int)) or (isinstance(a, (set, frozenset)) and isinstance(b, (set, frozenset))):
+                return {ast.BitXor: lambda: a ^ b, ast.BitOr: lambda: a | b, ast.BitAnd: lambda: a & b}[type(e.op)]()
+            raise AnalysisError("interpretation: unsupported bit operation")
         if isinstance(e, ast.BinOp) and isinstance(e.op, ast.Mod):
             a, b = self.ev(e.left, env), self.ev(e.right, env)
             if isinstance(a, str) and isinstance(b, (str, int, float, tuple, dict)) or isinstance(a, int) and isinstance(b, int):
